@@ -2178,6 +2178,8 @@ class Recipe:
             raise TypeError("Destination must be a container.")
         if destination.name not in self.results:
             raise ValueError(f"Destination {destination.name} has not been previously declared for use.")
+        if new_name and new_name != destination.name and new_name in self.results:
+            raise ValueError(f"An object with the name: \"{new_name}\" is already in use.")
         # if solute not in destination.contents:
         #     raise ValueError(f"Container does not contain {solute.name}.")
 
